@@ -272,6 +272,11 @@ class SchedRunner(Runner):
         self.ev.append(('close', tuple(sorted(U.tkey(t) for t in self.results_map))))
 
     def pending_task_count(self) -> int:
+        # a coordinator that keeps asking without ever consuming wait() spins just as well
+        self.count_calls = getattr(self, 'count_calls', 0) + 1
+        if self.count_calls > 50 * self.b.horizon + 1000:
+            self.ev.append(('horizon', 'pending_task_count'))
+            raise Spin()
         return len(self.inflight)
 
     def get_result(self, task) -> TaskResult:
